@@ -62,6 +62,16 @@ def generate(ctx):
                 unused = [i for i in range(len(g)) if not any(inp[0] == "n" and i in inp[1] for nd in g for inp in nd["ins"])]
                 c["rerun"]["edit"] = [rng.choice(["swap", "swap", "reconnect"]), rng.choice(unused)]
         out.append(c)
+    # targeted: a nested macro with a fan-in of 2-3 upstream nodes crosses a pickle boundary (its merged-back copy must
+    # come home with clean trigger state), and the workflow is run a second time
+    for j in range(ctx.n(30, 300)):
+        g = gen_graph(rng, rng.choice([4, 6, 8]), rng.choice([0.0, 0.3, 0.6]))
+        while len(g) < 3:
+            g = gen_graph(rng, 6, 0.3)
+        i = rng.randrange(2, len(g))
+        g[i] = {"k": rng.randint(0, 99), "ins": [["n", rng.sample(range(i), min(i, rng.choice([2, 2, 3])))]], "ex": True, "macro": True}
+        out.append({"nodes": g, "oracle": [rng.randint(0, 7) for _ in range(len(g))], "pickle": True,
+                    "rerun": {"oracle0": [rng.randint(0, 7) for _ in range(len(g))], "bump": rng.randint(1, 5)}})
     # a few real thread-pool runs with a slow checkpoint back end on the executor children (regression for S20)
     for j in range(ctx.n(3, 25)):
         n = rng.randint(2, 4)
